@@ -83,6 +83,13 @@ func (e *C20) one(ctx *core.Ctx) {
 			lbls[k] = fmt.Sprintf("v%d-%s", r.Intn(4), k)
 		}
 	}
+	if len(lbls) > 1 && r.Intn(6) == 0 {
+		// a marker label: legal, with an empty value
+		for k := range lbls {
+			lbls[k] = ""
+			break
+		}
+	}
 	special, collide := false, false
 	seenS := map[string]bool{}
 	for k := range lbls {
